@@ -43,6 +43,15 @@ EX_ASSUME = ["objdump's x86-64 decoder, the lifter and the x86rt machine model a
              "clobber model (all caller-saved GPRs, all vector registers and flags become arbitrary)",
              "x86-64 only (aarch64 code is not compiled on this machine)"]
 
+TF_BOUNDS = {"width": "matrix entries, positions / boxes / derivative seeds symbolic on the lattice k/4 (|k|<=8; boxes quick |k|<=3), homogeneous "
+                      "coordinate a power of two: real arithmetic is exact in f32 there, so the assertions are exact and independent of operation order",
+             "matrices": "A_i: one symbolic upper row + symbolic w; B: projective bottom row (gradients: one linear entry + m33 per harness)"}
+
+
+def tf_unit(kind, fn):
+    return KaniUnit("kernels", "c14_", [fn], TF_BOUNDS, LIBM_ASSUME[1:], [], quick_timeout=1200, thorough_timeout=3600, contains=kind)
+
+
 PROPS = {
     "C02": {
         "level": "model_checking",
@@ -109,6 +118,7 @@ PROPS = {
         "units": [
             arms("c03_", "VmIntervalEval::eval"),
             JitSmtUnit(["interval"]),
+            tf_unit("interval", "<Interval as fidget_core::shape::Transformable>::transform (the box with a transform matrix applied)"),
             KaniUnit("kernels", "c03_", INTERVAL_FNS + ["fidget_core::context::{UnaryOpcode,BinaryOpcode}::eval"],
                      {"width": "all 2^32 bit patterns per endpoint/point for selection-shaped and monotone-libm kernels",
                       "lattice": LATTICE, "unwind": 8},
@@ -131,6 +141,7 @@ PROPS = {
         "level": "model_checking",
         "units": [
             arms("c05_", "VmGradSliceEval::eval"),
+            tf_unit("grad", "<Grad as fidget_core::shape::Transformable>::transform (derivative lanes through the transform, arbitrary seeds)"),
             KaniUnit("kernels", "c05_", ["fidget_core::types::Grad::*", "<Grad as Add/Sub/Mul/Mul<f32>/Div/Neg>",
                                          "fidget_core::context::{UnaryOpcode,BinaryOpcode}::eval"],
                      {"width": "all 2^32 bit patterns per lane for value-lane and selection obligations",
